@@ -22,8 +22,8 @@ CASES = [
       "                Y = t.length*numpy.fft.fftshift(numpy.fft.ifft(\n                numpy.fft.ifftshift(y)))*t.step",
       "                Y = t.length*numpy.fft.fftshift(numpy.fft.ifft(\n                numpy.fft.ifftshift(y)))"),
     m("backward prefactor without 2 pi", "C13-B", D,
-      "            Y = numpy.fft.fftshift(numpy.fft.fft(\n            numpy.fft.ifftshift(y)))*w.step/(numpy.pi*2.0)",
-      "            Y = numpy.fft.fftshift(numpy.fft.fft(\n            numpy.fft.ifftshift(y)))*w.step"),
+      "                Y = numpy.fft.fftshift(numpy.fft.fft(\n                    numpy.fft.ifftshift(y)))*w.step/(numpy.pi*2.0)",
+      "                Y = numpy.fft.fftshift(numpy.fft.fft(\n                    numpy.fft.ifftshift(y)))*w.step"),
     m("upper-half factor 2 dropped", "C13-B", D,
       "                Y = 2.0*t.length*numpy.fft.fftshift(numpy.fft.ifft(yy))*t.step", "                Y = t.length*numpy.fft.fftshift(numpy.fft.ifft(yy))*t.step"),
     m("mirror index off by one", "C13-C", D,
@@ -54,4 +54,10 @@ CASES += [
         ('quantarhei/core/frequency.py', '        with energy_units("int"):\n\n            if self.atype == \'complete\':\n\n                times = numpy.fft.fftshift(\n                    numpy.fft.fftfreq(self.length, self.step/(2.0*numpy.pi)))\n', '        dw = self.step\n        with energy_units("int"):\n\n            if self.atype == \'complete\':\n\n                times = numpy.fft.fftshift(\n                    numpy.fft.fftfreq(self.length, dw/(2.0*numpy.pi)))\n', 1)]},
     {"name": "central frequency hoisted behind the branches but kept under internal units", "kind": "twin", "edits": [
         ('quantarhei/core/frequency.py', '                frequency_start = self.data[self.length//2]\n\n            else:\n                raise Exception("Unknown frequency axis type")\n', '\n            else:\n                raise Exception("Unknown frequency axis type")\n\n            frequency_start = self.data[self.length//2]\n', 1), ('quantarhei/core/frequency.py', '                frequency_start = self.data[self.length//2]\n\n\n            elif', '\n\n            elif', 1)]},
+]
+
+CASES += [
+    {"name": "frequency step read in the caller's units again (the repaired defect)", "kind": "mutant", "rule": "C13-D", "edits": [
+        (D, "            with energy_units(\"int\"):\n                Y = numpy.fft.fftshift(numpy.fft.fft(\n                    numpy.fft.ifftshift(y)))*w.step/(numpy.pi*2.0)",
+         "            if True:\n                Y = numpy.fft.fftshift(numpy.fft.fft(\n                    numpy.fft.ifftshift(y)))*w.step/(numpy.pi*2.0)", 1)]},
 ]
